@@ -10,6 +10,9 @@
 (*   calculate / fill_one_cube         region[tuple(flattened labels)] is the    *)
 (*                                     view the sub-cube fills, one delivery     *)
 (*                                     (cell) at a time, tasks in ANY interleaving*)
+(*   fill_one_cube                     three steps per task: Start (interrupt      *)
+(*                                     consulted, sub-cube built), Bind (views cut  *)
+(*                                     out of the regions), Write (one per delivery)*)
 (* A task is identified by the DATA it holds (`sel`: per dimension the coordinate *)
 (* each extra axis was fixed to) and by the LABEL the code computed for it; the  *)
 (* contract only mentions the former.                                            *)
@@ -17,7 +20,9 @@ EXTENDS Integers, Sequences, FiniteSets, TLC
 CONSTANTS Family,     \* set of cubes: each a sequence (one per dimension) of sequences of extra-axis extents
           NCells,     \* deliveries per sub-cube
           Kind,       \* "ccube" (slices1d) | "xcube" (itertools.product of ranges)
-          LabelRule   \* "prepend" = (coord,) + base_coords, as the code does; "append" = base_coords + (coord,), a witness
+          LabelRule,  \* "prepend" = (coord,) + base_coords, as the code does; "append" = base_coords + (coord,), a witness
+          LabelStore  \* "local" = the coordinates a task binds its views with are its own (a local of fill_one_cube), as the
+                      \* code does; "shared" = they are read back from an attribute of the cube all tasks share, a witness
 
 RECURSIVE Cat(_)
 Cat(ss) == IF Len(ss) = 0 THEN <<>> ELSE Head(ss) \o Cat(Tail(ss))
@@ -65,24 +70,36 @@ Offset(ex, d) == IF d = 1 THEN 0 ELSE Offset(ex, d - 1) + Len(ex[d - 1])
 Split(ex, j) == [d \in 1..Len(ex) |-> SubSeq(j, Offset(ex, d) + 1, Offset(ex, d) + Len(ex[d]))]
 
 \* ---- the evaluation as a state machine: sub-cubes fill their views one delivery at a time, in any interleaving ----
-VARIABLES ex, region, pc, oob
-vars == <<ex, region, pc, oob>>
-Tasks == TasksOf(ex, Kind, LabelRule)
+VARIABLES ex, tasks, region, pc, oob, shared, view
+vars == <<ex, tasks, region, pc, oob, shared, view>>
+Tasks == tasks            \* = TasksOf(ex, Kind, LabelRule), computed once
 Addr == IndexSpace(ScaffoldShape(ex)) \X (1..NCells)
 Unwritten == <<[d \in 1..Len(ex) |-> <<>>], 0>>
 
+\* pc[i]: -2 not started, -1 started (interrupt consulted, sub-cube being built), 0..NCells views bound and so many cells delivered
 Init == /\ ex \in Family
+        /\ tasks = TasksOf(ex, Kind, LabelRule)
         /\ region = [a \in Addr |-> Unwritten]
-        /\ pc = [i \in 1..Len(TasksOf(ex, Kind, LabelRule)) |-> 0]
+        /\ pc = [i \in 1..Len(TasksOf(ex, Kind, LabelRule)) |-> -2]
+        /\ view = [i \in 1..Len(TasksOf(ex, Kind, LabelRule)) |-> <<>>]
+        /\ shared = <<>>
         /\ oob = FALSE
-Write(i) == /\ pc[i] < NCells
+Start(i) == /\ pc[i] = -2
+            /\ pc' = [pc EXCEPT ![i] = -1]
+            /\ shared' = FlatLabel(Tasks[i])
+            /\ UNCHANGED <<ex, tasks, region, oob, view>>
+Bind(i) == /\ pc[i] = -1
+           /\ pc' = [pc EXCEPT ![i] = 0]
+           /\ view' = [view EXCEPT ![i] = IF LabelStore = "shared" THEN shared ELSE FlatLabel(Tasks[i])]
+           /\ UNCHANGED <<ex, tasks, region, oob, shared>>
+Write(i) == /\ pc[i] >= 0 /\ pc[i] < NCells
             /\ LET c == pc[i] + 1
-                   a == <<FlatLabel(Tasks[i]), c>>
+                   a == <<view[i], c>>
                IN /\ pc' = [pc EXCEPT ![i] = c]
                   /\ IF a \in Addr THEN region' = [region EXCEPT ![a] = <<SelOf(Tasks[i]), c>>] /\ oob' = oob
                                    ELSE region' = region /\ oob' = TRUE      \* IndexError in the code
-            /\ UNCHANGED ex
-Next == \E i \in DOMAIN pc : Write(i)
+            /\ UNCHANGED <<ex, tasks, shared, view>>
+Next == \E i \in DOMAIN pc : Start(i) \/ Bind(i) \/ Write(i)
 Spec == Init /\ [][Next]_vars
 
 Finished == \A i \in DOMAIN pc : pc[i] = NCells
